@@ -56,7 +56,12 @@ func (r *bytesReader) Read(data []byte) (int, error) {
 
 // Buffer holds an in-memory implementation of ociregistry.BlobWriter.
 type Buffer struct {
-	commit           func(b *Buffer) error
+	commit func(b *Buffer) error
+	// commitMu serialises calls to Commit so that the descriptor
+	// recorded by checkCommit is still the one that the commit function
+	// sees. It is acquired before any other lock and is never
+	// held by the commit function itself.
+	commitMu         sync.Mutex
 	mu               sync.Mutex
 	buf              []byte
 	checkStartOffset int64
@@ -112,7 +117,21 @@ func (b *Buffer) GetBlob() (ociregistry.Descriptor, []byte, error) {
 	if b.commitErr != nil {
 		return ociregistry.Descriptor{}, nil, b.commitErr
 	}
+	if int64(len(b.buf)) != b.desc.Size {
+		// Data was written after the digest was checked,
+		// so the content no longer matches the descriptor.
+		b.commitErr = fmt.Errorf("upload modified after digest check: %w", ociregistry.ErrDigestInvalid)
+		return ociregistry.Descriptor{}, nil, b.commitErr
+	}
 	return b.desc, b.buf, nil
+}
+
+// setStartOffset records the offset that the next call to Write
+// must start at (-1 for no check).
+func (b *Buffer) setStartOffset(offset int64) {
+	b.mu.Lock()
+	defer b.mu.Unlock()
+	b.checkStartOffset = offset
 }
 
 // Write implements io.Writer by writing some data to the blob.
@@ -148,30 +167,32 @@ func (b *Buffer) ID() string {
 // Commit implements [ociregistry.BlobWriter.Commit] by checking
 // that everything looks OK and calling the commit function if so.
 func (b *Buffer) Commit(dig ociregistry.Digest) (_ ociregistry.Descriptor, err error) {
-	if err := b.checkCommit(dig); err != nil {
+	b.commitMu.Lock()
+	defer b.commitMu.Unlock()
+	desc, err := b.checkCommit(dig)
+	if err != nil {
 		return ociregistry.Descriptor{}, err
 	}
 	// Note: we're careful to call this function outside of the mutex so
-	// that it can call locked Buffer methods OK.
+	// that it can call locked Buffer methods OK. It obtains the data
+	// with GetBlob, which fails if the buffer has grown since checkCommit.
 	if err := b.commit(b); err != nil {
 		b.mu.Lock()
 		defer b.mu.Unlock()
 
-		b.commitErr = err
+		if b.commitErr == nil {
+			b.commitErr = err
+		}
 		return ociregistry.Descriptor{}, err
 	}
-	return ociregistry.Descriptor{
-		MediaType: "application/octet-stream",
-		Size:      int64(len(b.buf)),
-		Digest:    dig,
-	}, nil
+	return desc, nil
 }
 
-func (b *Buffer) checkCommit(dig ociregistry.Digest) (err error) {
+func (b *Buffer) checkCommit(dig ociregistry.Digest) (_ ociregistry.Descriptor, err error) {
 	b.mu.Lock()
 	defer b.mu.Unlock()
 	if b.commitErr != nil {
-		return b.commitErr
+		return ociregistry.Descriptor{}, b.commitErr
 	}
 	defer func() {
 		if err != nil {
@@ -179,7 +200,7 @@ func (b *Buffer) checkCommit(dig ociregistry.Digest) (err error) {
 		}
 	}()
 	if digest.FromBytes(b.buf) != dig {
-		return fmt.Errorf("digest mismatch (sha256(%q) != %s): %w", b.buf, dig, ociregistry.ErrDigestInvalid)
+		return ociregistry.Descriptor{}, fmt.Errorf("digest mismatch (sha256(%q) != %s): %w", b.buf, dig, ociregistry.ErrDigestInvalid)
 	}
 	b.desc = ociregistry.Descriptor{
 		MediaType: "application/octet-stream",
@@ -187,5 +208,5 @@ func (b *Buffer) checkCommit(dig ociregistry.Digest) (err error) {
 		Size:      int64(len(b.buf)),
 	}
 	b.committed = true
-	return nil
+	return b.desc, nil
 }
